@@ -74,9 +74,17 @@ def _case(draw):
         ops = []
         for _ in range(d.i(1, 5)):
             ops.append(["push", d.pick(NAMES), [c for c in CHAINS[1:] if d.chance(0.4)]])
+        def mkalt():
+            alt = [c for c in CHAINS[1:] if d.chance(0.4)]
+            if alt and d.chance(0.15):
+                alt = alt + [d.pick(alt)]  # a chain named twice is still one membership
+            if d.chance(0.05):
+                alt = alt + [""]
+            return alt
+
         for _ in range(d.i(3, 35)):
             k = d.weighted([(8, "push"), (6, "before"), (6, "after"), (8, "at"), (14, "enable"), (10, "enableOnly"), (14, "disable"), (18, "getRules"), (10, "observe")])
-            alt = [c for c in CHAINS[1:] if d.chance(0.4)]
+            alt = mkalt()
             pool = NAMES + UNKNOWN if d.chance(0.3) else NAMES
             if k == "push":
                 ops.append(["push", d.pick(NAMES), alt])
@@ -100,7 +108,7 @@ def _case(draw):
     names_pool = C.ALL_OPT + ["linkify", "balance_pairs", "text_join", "normalize", "fragments_join"] + UNKNOWN
     depth = 0
     for _ in range(d.i(2, 16)):
-        k = d.weighted([(20, "enable"), (20, "disable"), (8, "configure"), (20, "parse"), (8, "enter"), (8 if depth else 0, "exit"), (4 if depth else 0, "exit_raise"), (10, "active")])
+        k = d.weighted([(20, "enable"), (20, "disable"), (8, "configure"), (20, "parse"), (8, "enter"), (8 if depth else 0, "exit"), (4 if depth else 0, "exit_raise"), (6, "active"), (8, "compile")])
         if k in ("enable", "disable"):
             n = d.i(0, 3)
             arg = d.pick(names_pool) if d.chance(0.3) else [d.pick(names_pool) for _ in range(n)]
@@ -115,6 +123,8 @@ def _case(draw):
         elif k in ("exit", "exit_raise"):
             depth -= 1
             ops.append([k])
+        elif k == "compile":
+            ops.append(["compile", d.pick(["", "paragraph", "reference", "blockquote", "list"])])
         else:
             ops.append(["active"])
     return {"kind": "facade", "preset": preset, "ops": ops}
@@ -448,6 +458,10 @@ def check_facade(case, res: Res) -> None:
                     return len(ops)
             elif k == "active":
                 pass
+            elif k == "compile":
+                # reading the compiled chains is an observation: it must not change what the next parse applies
+                for ruler in (md.core.ruler, md.block.ruler, md.inline.ruler, md.inline.ruler2):
+                    ruler.getRules(op[1] if ruler is md.block.ruler else "")
             elif k == "enter":
                 saved = {c: list(v) for c, v in model.items()}
                 try:
